@@ -2642,6 +2642,85 @@ theorem C09_aggr_integer_element_never_silent {F} (env : Env F) (hcfg : env.lex.
       v = .atom (valueToAtom (intValue (some (denoteInteger tok)) : Value F)) ∧ AtDelimOrEnd env.lex s1.right :=
   elemRead_integer_sound env hcfg s l c t sk hsA hc e v s1 h hne
 
+/-! the element's part for the other kinds, same shape: one round of the loop behind the token separators (`hsA`), in front of a
+character `c` that is neither blank, `/` nor a delimiter (`C09_aggr_no_missing_element` supplies the latter for the repaired
+loop), reporting nothing worse than INCOMPLETE ⇒ severity NULL and the element is a token of its kind's grammar (lenient
+forms as at attribute level) with its value, followed by separators, the stream resting at its end or a delimiter -/
+
+/-- `hsA` holds whenever the element stands behind a layout of blanks and comments (C01's `Seps`) and does not start with a
+    blank, `/` or `\` -/
+theorem C09_aggr_hsA_of_seps {F} (env : Env F) (hagg : env.cfg.aggrSkipsComments = true) (seps : List Byte) (hs : Seps seps)
+    (l : List Byte) (c : Byte) (t : List Byte) (sk : Bool) (hc : isSpace c = false) (h47 : c ≠ 47) (h92 : c ≠ 92) :
+    (if env.cfg.aggrSkipsComments then readTokenSeparator (G l (seps ++ c :: t) sk) else G l (seps ++ c :: t) sk) =
+      G (seps.reverse ++ l) (c :: t) sk := by
+  simp only [hagg, if_true]
+  exact readTokenSeparator_seps seps hs l c t sk hc h47 h92
+
+theorem C09_aggr_real_element_never_silent {F} (env : Env F) (hcfg : env.lex.realReportsFail = true) (ty : ElemTy)
+    (hty : ty = .real ∨ (ty = .number ∧ env.cfg.numberElemReadsNumber = false)) (s : IStream)
+    (l : List Byte) (c : Byte) (t : List Byte) (sk : Bool)
+    (hsA : (if env.cfg.aggrSkipsComments then readTokenSeparator s else s) = G l (c :: t) sk) (hc : isSpace c = false)
+    (hd : delimAt env.lex attrDelims c = false) (h47 : c ≠ 47)
+    (e : Sev) (v : Elem F) (s1 : IStream)
+    (h : elemRead env ty s = .ok (e, v, s1)) (hne : ¬ e.toInt < Sev.incomplete.toInt) :
+    e = .null ∧ ∃ tok sp2 sp3 d x, c :: t = tok ++ sp2 ++ sp3 ++ s1.right ∧ Between env.lex sp2 ∧ Between env.lex sp3 ∧
+      isReal tok = true ∧ denoteReal tok = some d ∧ env.ops.ofDecimal d = some x ∧
+      v = .atom (valueToAtom (realValue env.ops (some x))) ∧ AtDelimOrEnd env.lex s1.right :=
+  elemCore_real_sound env hcfg ty hty l c t sk hc (fun _ => ⟨hd, h47⟩) e v s1
+    (elemRead_core env ty s l c t sk hsA e v s1 h hne) hne
+
+theorem C09_aggr_number_element_never_silent {F} (env : Env F) (hcfg : env.lex.numberReportsFail = true)
+    (hnum : env.cfg.numberElemReadsNumber = true) (s : IStream) (l : List Byte) (c : Byte) (t : List Byte) (sk : Bool)
+    (hsA : (if env.cfg.aggrSkipsComments then readTokenSeparator s else s) = G l (c :: t) sk) (hc : isSpace c = false)
+    (e : Sev) (v : Elem F) (s1 : IStream)
+    (h : elemRead env .number s = .ok (e, v, s1)) (hne : ¬ e.toInt < Sev.incomplete.toInt) :
+    e = .null ∧ ∃ tok sp2 sp3 d x, c :: t = tok ++ sp2 ++ sp3 ++ s1.right ∧ Between env.lex sp2 ∧ Between env.lex sp3 ∧
+      denoteReal tok = some d ∧ env.ops.ofDecimal d = some x ∧
+      v = .atom (valueToAtom (realValue env.ops (some x))) ∧ AtDelimOrEnd env.lex s1.right :=
+  elemCore_number_sound env hcfg hnum l c t sk hc e v s1 (elemRead_core env .number s l c t sk hsA e v s1 h hne) hne
+
+theorem C09_aggr_string_element_never_silent {F} (env : Env F) (s : IStream) (l : List Byte) (c : Byte) (t : List Byte) (sk : Bool)
+    (hsA : (if env.cfg.aggrSkipsComments then readTokenSeparator s else s) = G l (c :: t) sk) (hc : isSpace c = false)
+    (hd : delimAt env.lex attrDelims c = false) (h47 : c ≠ 47)
+    (e : Sev) (v : Elem F) (s1 : IStream)
+    (h : elemRead env .string s = .ok (e, v, s1)) (hne : ¬ e.toInt < Sev.incomplete.toInt) :
+    e = .null ∧ ∃ tok sp3, c :: t = tok ++ sp3 ++ s1.right ∧ isStringLenient tok = true ∧ Between env.lex sp3 ∧
+      v = .atom (.str tok) ∧ AtDelimOrEnd env.lex s1.right :=
+  elemCore_string_sound env l c t sk hc hd h47 e v s1 (elemRead_core env .string s l c t sk hsA e v s1 h hne) hne
+
+theorem C09_aggr_binary_element_never_silent {F} (env : Env F) (hcfg : env.lex.binaryRejectsEmpty = true) (s : IStream)
+    (l : List Byte) (c : Byte) (t : List Byte) (sk : Bool)
+    (hsA : (if env.cfg.aggrSkipsComments then readTokenSeparator s else s) = G l (c :: t) sk) (hc : isSpace c = false)
+    (e : Sev) (v : Elem F) (s1 : IStream)
+    (h : elemRead env .binary s = .ok (e, v, s1)) (hne : ¬ e.toInt < Sev.incomplete.toInt) :
+    e = .null ∧ ∃ hex sp3, c :: t = 34 :: (hex ++ 34 :: (sp3 ++ s1.right)) ∧ hex ≠ [] ∧ hex.all isXDigit = true ∧
+      Between env.lex sp3 ∧ v = .atom (.bin hex) ∧ AtDelimOrEnd env.lex s1.right :=
+  elemCore_binary_sound env hcfg l c t sk hc e v s1 (elemRead_core env .binary s l c t sk hsA e v s1 h hne) hne
+
+theorem C09_aggr_enum_element_never_silent {F} (env : Env F) (ty : ElemTy) (het : EnumTy ty) (s : IStream)
+    (l : List Byte) (c : Byte) (t : List Byte) (sk : Bool)
+    (hsA : (if env.cfg.aggrSkipsComments then readTokenSeparator s else s) = G l (c :: t) sk) (hc : isSpace c = false)
+    (h44 : c ≠ 44) (h41 : c ≠ 41) (e : Sev) (v : Elem F) (s1 : IStream)
+    (h : elemRead env ty s = .ok (e, v, s1)) (hne : ¬ e.toInt < Sev.incomplete.toInt) :
+    e = .null ∧ ∃ name i sp3, c :: t = 46 :: (name ++ 46 :: (sp3 ++ s1.right)) ∧ name ≠ [] ∧ name.all pw = true ∧
+      findName (enumKindOf ty).table (name.map toUpper) = some i ∧
+      (env.lex.logicalRejectsUnset = true → (enumKindOf ty).isUnsetIdx i = false) ∧ Between env.lex sp3 ∧
+      v = .atom (valueToAtom (enumValue (enumKindOf ty) (some i) : Value F)) ∧ AtDelimOrEnd env.lex s1.right :=
+  elemCore_enum_sound env ty het l c t sk hc h44 h41 e v s1 (elemRead_core env ty s l c t sk hsA e v s1 h hne) hne
+
+/-- entity references: stated for a stream whose `skipws` flag is on (it is off only after a STRING was read from the same
+    stream; then `# 5` is no longer accepted, which this theorem does not follow) -/
+theorem C09_aggr_ref_element_never_silent {F} (env : Env F) (tg : String) (s : IStream) (l : List Byte) (c : Byte) (t : List Byte)
+    (hsA : (if env.cfg.aggrSkipsComments then readTokenSeparator s else s) = G l (c :: t) true) (hc : isSpace c = false)
+    (hd : delimAt env.lex attrDelims c = false) (h47 : c ≠ 47)
+    (e : Sev) (v : Elem F) (s1 : IStream)
+    (h : elemRead env (.entity tg) s = .ok (e, v, s1)) (hne : ¬ e.toInt < Sev.incomplete.toInt) :
+    e = .null ∧ ∃ spx tok sp2 sp3, c :: t = 35 :: (spx ++ tok ++ sp2 ++ sp3 ++ s1.right) ∧ spx.all isSpace = true ∧
+      Between env.lex sp2 ∧ Between env.lex sp3 ∧ isInteger tok = true ∧ intMin ≤ denoteInteger tok ∧ denoteInteger tok ≤ intMax ∧
+      refLookup env.lookup tg (denoteInteger tok) = .found ∧ v = .atom (.ref (denoteInteger tok)) ∧
+      AtDelimOrEnd env.lex s1.right :=
+  elemCore_ref_sound env tg l c t hc hd h47 e v s1 (elemRead_core env (.entity tg) s l c t true hsA e v s1 h hne) hne
+
 /-- a `LoopRun` stores one value per element-reader call (so the count of stored elements is the count of element positions) -/
 theorem C09_aggr_looprun_elements {F} (env : Env F) (ty : ElemTy) (c : Byte) (s sf : IStream) (vs : List (Elem F))
     (h : LoopRun env ty c s vs sf) :
